@@ -689,7 +689,10 @@ func (f *Frame) instr(in ssa.Instruction) {
 	case *ssa.Call:
 		f.call(in, &in.Call, in)
 	case *ssa.Defer:
-		f.defers = append(f.defers, in)
+		// the deferred call is registered dynamically: a ghost flag records that this defer statement ran
+		name := f.deferFlag(in)
+		e.comp(f.st, name, "Bool")
+		e.setComp(f.st, name, "true")
 	case *ssa.RunDefers:
 		f.runDefers()
 	case *ssa.Go:
@@ -944,6 +947,17 @@ func (f *Frame) encodeBody(args []string, reach string, st *State) {
 	}
 	for i, p := range fn.Params {
 		f.vals[p] = args[i]
+	}
+	// defer statements start unregistered
+	for _, b := range fn.Blocks {
+		for _, in := range b.Instrs {
+			if d, ok := in.(*ssa.Defer); ok {
+				f.defers = append(f.defers, d)
+				name := f.deferFlag(d)
+				e.comp(st, name, "Bool")
+				e.setComp(st, name, "false")
+			}
+		}
 	}
 	f.entrySt = st.clone()
 	// back edges and loop headers
